@@ -14,7 +14,7 @@ ASSUMPTIONS = ["results are compared with type-and-value equality (no tolerance:
                "a dict-valued reading named without a field counts as missing (the library's own _get_clean_readings convention); raises on it are "
                "reported under the separate clause raises-on-dict",
                "Hexital dict form passes `indicator=` through `args` because a top-level `indicator` key selects the indicator branch"]
-PARTIAL = ""
+PARTIAL = ''
 
 
 def oracle(ctx):
